@@ -77,6 +77,20 @@ check("C02",
       "TLA+ spec (MeiosisProb.tla) exact counting by TLC + scripted-draw replay validated by TLC + z-tests on TLC-computed probabilities",
       "DESIGN.md C02")
 
+check("C09",
+      "TLC checks the per-locus identities (frequency range, 0/1 exactly when all copies are equal, fixed = not polymorphic, "
+      "phased counting = unphased counting incl. the phased all()-test, genotype classes sum to n, minor count, "
+      "heterozygosity) for every phased composition of populations up to 24 (60 thorough). Matrices realising EVERY "
+      "genotype-class composition for each n in the exhaustive range, the sizes 49/98/103/107/161/300 where 1/(2n) is not "
+      "representable (fixed, near-fixed and random loci) and small random matrices are built as phased matrix, unphased "
+      "matrix and via DenseUnphasedGenotyping; acount, afreq (+ exact-0/1 flags), apoly, afixed, maf, meh, gtcount, "
+      "gtfreq, tacount, tafreq, the three codings and requested dtypes are recorded in exact integer form and "
+      "validated by TLC (GenoStats_Trace).",
+      "Diploid biallelic calls; float outputs logged as round(f*scale) with a lattice residual <= 1e-6; exactness at "
+      "the 0/1 boundary tested with the default dtype.",
+      "TLA+ spec (GenoStats.tla) model-checked by TLC + TLC validation of recorded statistics of the real classes",
+      "DESIGN.md C09")
+
 def build():
     checks = []
     for pid in sorted(CHECKS):
